@@ -1,7 +1,7 @@
 (* C09 -- Shape algebra: canonical form and shape rules match the specification.
    Nothing but statements closed by `exact <lemma>` and Print Assumptions. *)
 From Coq Require Import List NArith Bool Lia.
-From PV Require Import Base.U32 Shape.ShapeImpl Shape.ShapeSpec Shape.ShapeProofs.
+From PV Require Import Base.U32 Shape.ShapeImpl Shape.ShapeSpec Shape.ShapeProofs Shape.ShapeRules.
 Import ListNotations.
 Local Open Scope N_scope.
 
@@ -54,8 +54,291 @@ Theorem C09_update_dim s dim m : wf s -> u32 dim -> u32 m ->
 Proof. exact (update_dim_spec s dim m). Qed.
 Print Assumptions C09_update_dim.
 
+(* ---------------------------------------------------------------------------------------
+   Predicates.  `get s i` is Shape::operator[] (1 beyond the stored depth).
+   --------------------------------------------------------------------------------------- *)
+Theorem C09_has_same_dims a b : wf a -> wf b ->
+  (has_same_dims a b = true <-> forall i, get a i = get b i).
+Proof. exact (has_same_dims_spec a b). Qed.
+Print Assumptions C09_has_same_dims.
+
+(* leave-one-out comparison: equal on every axis except `dim` (axes >= depth count as 1) *)
+Theorem C09_has_same_loo_dims a b dim : wf a -> wf b -> u32 dim ->
+  (has_same_loo_dims a b dim = true <-> forall i, i <> dim -> get a i = get b i).
+Proof. exact (has_same_loo_dims_spec a b dim). Qed.
+Print Assumptions C09_has_same_loo_dims.
+
+Theorem C09_has_compatible_batch a b :
+  has_compatible_batch a b = true <-> (batch a = batch b \/ batch a = 1 \/ batch b = 1).
+Proof. exact (has_compatible_batch_spec a b). Qed.
+Print Assumptions C09_has_compatible_batch.
+
+Theorem C09_is_scalar s : wf s -> (is_scalar s = true <-> forall i, get s i = 1).
+Proof. exact (is_scalar_spec s). Qed.
+Print Assumptions C09_is_scalar.
+
+Theorem C09_is_column_vector s : wf s ->
+  (is_column_vector s = true <-> forall i, 1 <= i -> get s i = 1).
+Proof. exact (is_column_vector_spec s). Qed.
+Print Assumptions C09_is_column_vector.
+
+Theorem C09_is_matrix s : wf s -> (is_matrix s = true <-> forall i, 2 <= i -> get s i = 1).
+Proof. exact (is_matrix_spec s). Qed.
+Print Assumptions C09_is_matrix.
+
+Theorem C09_depth_le s k : wf s -> (depth s <= k <-> forall i, k <= i -> get s i = 1).
+Proof. exact (depth_le_iff s k). Qed.
+Print Assumptions C09_depth_le.
+
+(* ---------------------------------------------------------------------------------------
+   Shape rules.  Every theorem: the rule returns `Some r` exactly for the admissible
+   arguments (a statement over unbounded N: true products / sums, no wrap), and then `r` is
+   well formed (canonical, true element count < 2^32) with the documented batch and
+   dimensions; by C09_canonical_unique this determines `r`.  `None` models the thrown Error.
+   --------------------------------------------------------------------------------------- *)
+Theorem C09_reshape before after : wf before -> wf after ->
+  match reshape before after with
+  | Some r => reshape_admissible before after /\ wf r /\ batch r = batch before /\
+              (forall i, get r i = get after i)
+  | None => ~ reshape_admissible before after
+  end.
+Proof. exact (reshape_spec before after). Qed.
+Print Assumptions C09_reshape.
+
+Theorem C09_flatten x : wf x ->
+  match flatten x with
+  | Some r => wf r /\ batch r = batch x /\
+              (forall i, get r i = if i =? 0 then prodN (dims x) else 1)
+  | None => False
+  end.
+Proof. exact (flatten_spec x). Qed.
+Print Assumptions C09_flatten.
+
+Theorem C09_scalar_op x k : wf x -> wf k ->
+  match scalar_op x k with
+  | Some r => scalar_op_admissible x k /\ wf r /\ batch r = N.max (batch x) (batch k) /\
+              (forall i, get r i = get x i)
+  | None => ~ scalar_op_admissible x k
+  end.
+Proof. exact (scalar_op_spec x k). Qed.
+Print Assumptions C09_scalar_op.
+
+Theorem C09_elementwise a b : wf a -> wf b ->
+  match elementwise a b with
+  | Some r => elementwise_admissible a b /\ wf r /\ batch r = N.max (batch a) (batch b) /\
+              (forall i, get r i = get a i)
+  | None => ~ elementwise_admissible a b
+  end.
+Proof. exact (elementwise_spec a b). Qed.
+Print Assumptions C09_elementwise.
+
+Theorem C09_slice x dim lower upper : wf x -> u32 dim -> u32 lower -> u32 upper ->
+  match slice x dim lower upper with
+  | Some r => slice_admissible x dim lower upper /\ wf r /\ batch r = batch x /\
+              (forall i, get r i = if i =? dim then upper - lower else get x i)
+  | None => ~ slice_admissible x dim lower upper
+  end.
+Proof. exact (slice_spec x dim lower upper). Qed.
+Print Assumptions C09_slice.
+
+(* any number (< 2^32: the C++ loop index is a uint32) of operands *)
+Theorem C09_concat xs dim : Forall wf xs -> u32 (N.of_nat (length xs)) -> u32 dim ->
+  match concat xs dim with
+  | Some r => concat_admissible xs dim /\ wf r /\ batch r = maxl (map batch xs) /\
+              get r dim = sumN (map (fun s => get s dim) xs) /\
+              (forall s, In s xs -> forall i, i <> dim -> get r i = get s i)
+  | None => ~ concat_admissible xs dim
+  end.
+Proof. exact (concat_spec xs dim). Qed.
+Print Assumptions C09_concat.
+
+Theorem C09_broadcast x dim sz : wf x -> u32 dim -> u32 sz ->
+  match broadcast x dim sz with
+  | Some r => broadcast_admissible x dim sz /\ wf r /\ batch r = batch x /\
+              (forall i, get r i = if i =? dim then sz else get x i)
+  | None => ~ broadcast_admissible x dim sz
+  end.
+Proof. exact (broadcast_spec x dim sz). Qed.
+Print Assumptions C09_broadcast.
+
+Theorem C09_pick x ids dim : wf x -> Forall u32 ids -> u32 (N.of_nat (length ids)) -> u32 dim ->
+  match pick x ids dim with
+  | Some r => pick_admissible x ids dim /\ wf r /\
+              batch r = N.max (batch x) (N.of_nat (length ids)) /\
+              (forall i, get r i = if i =? dim then 1 else get x i)
+  | None => ~ pick_admissible x ids dim
+  end.
+Proof. exact (pick_spec x ids dim). Qed.
+Print Assumptions C09_pick.
+
+Theorem C09_transpose x : wf x ->
+  match transpose x with
+  | Some r => transpose_admissible x /\ wf r /\ batch r = batch x /\
+              (forall i, get r i = if i =? 0 then get x 1 else if i =? 1 then get x 0 else 1)
+  | None => ~ transpose_admissible x
+  end.
+Proof. exact (transpose_spec x). Qed.
+Print Assumptions C09_transpose.
+
+Theorem C09_permute_dims x perm : wf x -> Forall u32 perm ->
+  match permute_dims x perm with
+  | Some r => permute_admissible x perm /\ wf r /\ batch r = batch x /\
+              (forall i, get r i = if i <? N.of_nat (length perm)
+                                   then get x (nth (N.to_nat i) perm 0) else 1)
+  | None => ~ permute_admissible x perm
+  end.
+Proof. exact (permute_dims_spec x perm). Qed.
+Print Assumptions C09_permute_dims.
+
+Theorem C09_matmul l r : wf l -> wf r ->
+  match matmul l r with
+  | Some y => matmul_admissible l r /\ wf y /\ batch y = N.max (batch l) (batch r) /\
+              (forall i, get y i = if i =? 0 then get l 0 else if i =? 1 then get r 1 else 1)
+  | None => ~ matmul_admissible l r
+  end.
+Proof. exact (matmul_spec l r). Qed.
+Print Assumptions C09_matmul.
+
+Theorem C09_conv2d x w p0 p1 s0 s1 d0 d1 : wf x -> wf w ->
+  u32 p0 -> u32 p1 -> u32 s0 -> u32 s1 -> u32 d0 -> u32 d1 ->
+  match conv2d x w p0 p1 s0 s1 d0 d1 with
+  | Some r => conv2d_admissible x w p0 p1 s0 s1 d0 d1 /\ wf r /\
+              batch r = N.max (batch x) (batch w) /\
+              (forall i, get r i =
+                 if i =? 0 then conv_out (get x 0) p0 (get w 0) d0 s0
+                 else if i =? 1 then conv_out (get x 1) p1 (get w 1) d1 s1
+                 else if i =? 2 then get w 3 else 1)
+  | None => ~ conv2d_admissible x w p0 p1 s0 s1 d0 d1
+  end.
+Proof. exact (conv2d_spec x w p0 p1 s0 s1 d0 d1). Qed.
+Print Assumptions C09_conv2d.
+
+Theorem C09_pool2d x w0 w1 p0 p1 s0 s1 : wf x ->
+  u32 w0 -> u32 w1 -> u32 p0 -> u32 p1 -> u32 s0 -> u32 s1 ->
+  match pool2d x w0 w1 p0 p1 s0 s1 with
+  | Some r => pool2d_admissible x w0 w1 p0 p1 s0 s1 /\ wf r /\ batch r = batch x /\
+              (forall i, get r i =
+                 if i =? 0 then pool_out (get x 0) p0 w0 s0
+                 else if i =? 1 then pool_out (get x 1) p1 w1 s1
+                 else if i =? 2 then get x 2 else 1)
+  | None => ~ pool2d_admissible x w0 w1 p0 p1 s0 s1
+  end.
+Proof. exact (pool2d_spec x w0 w1 p0 p1 s0 s1). Qed.
+Print Assumptions C09_pool2d.
+
+Theorem C09_batch_pick x ids : wf x -> Forall u32 ids -> u32 (N.of_nat (length ids)) ->
+  match batch_pick x ids with
+  | Some r => batch_pick_admissible x ids /\ wf r /\ batch r = N.of_nat (length ids) /\
+              (forall i, get r i = get x i)
+  | None => ~ batch_pick_admissible x ids
+  end.
+Proof. exact (batch_pick_spec x ids). Qed.
+Print Assumptions C09_batch_pick.
+
+Theorem C09_batch_slice x lower upper : wf x -> u32 lower -> u32 upper ->
+  match batch_slice x lower upper with
+  | Some r => batch_slice_admissible x lower upper /\ wf r /\ batch r = upper - lower /\
+              (forall i, get r i = get x i)
+  | None => ~ batch_slice_admissible x lower upper
+  end.
+Proof. exact (batch_slice_spec x lower upper). Qed.
+Print Assumptions C09_batch_slice.
+
+Theorem C09_batch_concat xs : Forall wf xs -> u32 (N.of_nat (length xs)) ->
+  match batch_concat xs with
+  | Some r => batch_concat_admissible xs /\ wf r /\ batch r = sumN (map batch xs) /\
+              (forall s, In s xs -> forall i, get r i = get s i)
+  | None => ~ batch_concat_admissible xs
+  end.
+Proof. exact (batch_concat_spec xs). Qed.
+Print Assumptions C09_batch_concat.
+
+(* FWD_SHAPE(Split): each of the n outputs has this shape *)
+Theorem C09_split x dim n : wf x -> u32 dim -> u32 n ->
+  match split x dim n with
+  | Some r => split_admissible x dim n /\ wf r /\ batch r = batch x /\
+              (forall i, get r i = if i =? dim then get x dim / n else get x i)
+  | None => ~ split_admissible x dim n
+  end.
+Proof. exact (split_spec x dim n). Qed.
+Print Assumptions C09_split.
+
+Theorem C09_batch_split x n : wf x -> u32 n ->
+  match batch_split x n with
+  | Some r => batch_split_admissible x n /\ wf r /\ batch r = batch x / n /\
+              (forall i, get r i = get x i)
+  | None => ~ batch_split_admissible x n
+  end.
+Proof. exact (batch_split_spec x n). Qed.
+Print Assumptions C09_batch_split.
+
+(* FWD_SHAPE(SoftmaxCrossEntropy) *)
+Theorem C09_sce x t dim : wf x -> wf t -> u32 dim ->
+  match sce x t dim with
+  | Some r => sce_admissible x t dim /\ wf r /\ batch r = N.max (batch x) (batch t) /\
+              (forall i, get r i = if i =? dim then 1 else get x i)
+  | None => ~ sce_admissible x t dim
+  end.
+Proof. exact (sce_spec x t dim). Qed.
+Print Assumptions C09_sce.
+
+(* FWD_SHAPE(Max|Min|Sum|LogSumExp) *)
+Theorem C09_reduce x dim : wf x -> u32 dim ->
+  match reduce x dim with
+  | Some r => reduce_admissible x dim /\ wf r /\ batch r = batch x /\
+              (forall i, get r i = if i =? dim then 1 else get x i)
+  | None => ~ reduce_admissible x dim
+  end.
+Proof. exact (reduce_spec x dim). Qed.
+Print Assumptions C09_reduce.
+
+Theorem C09_identity sz : u32 sz ->
+  match identity sz with
+  | Some r => identity_admissible sz /\ wf r /\ batch r = 1 /\
+              (forall i, get r i = if i <? 2 then sz else 1)
+  | None => ~ identity_admissible sz
+  end.
+Proof. exact (identity_spec sz). Qed.
+Print Assumptions C09_identity.
+
+Theorem C09_batch_sum x : wf x ->
+  match batch_sum x with
+  | Some r => wf r /\ batch r = 1 /\ (forall i, get r i = get x i)
+  | None => False
+  end.
+Proof. exact (batch_sum_spec x). Qed.
+Print Assumptions C09_batch_sum.
+
+(* Every constructor, mutator and rule maps well-formed (canonical, unwrapped) arguments to a
+   well-formed result: with C09_ctor_accepts as the base case, every Shape obtainable through
+   the public API is well formed (`rules_preserve_wf` is the conjunction over all of them). *)
+Theorem C09_canonical_reachable : rules_preserve_wf.
+Proof. exact canonical_reachable. Qed.
+Print Assumptions C09_canonical_reachable.
+
 (* non-vacuity: a concrete non-trivial shape meets the hypotheses *)
 Example C09_nonvacuous :
   exists s, mk_shape [2; 3; 1; 5; 1; 1] 4 = Some s /\ dims s = [2; 3; 1; 5] /\ volume s = 30 /\
             update_dim s 6 7 <> None /\ mk_shape [65536; 65537] 1 = None.
 Proof. exists (mkS [2; 3; 1; 5] 4 30). vm_compute. repeat split; discriminate. Qed.
+
+(* non-vacuity of the rule theorems: concrete well-formed operands, accepted and rejected *)
+Example C09_nonvacuous_wf : wf (mkS [2; 3; 1; 5] 4 30) /\ wf (mkS [2; 7; 1; 5] 1 70).
+Proof.
+  split; constructor; cbn [dims batch volume length];
+    try (vm_compute; reflexivity); try lia; repeat constructor.
+Qed.
+
+Example C09_nonvacuous_rules :
+  concat [mkS [2; 3; 1; 5] 4 30; mkS [2; 7; 1; 5] 1 70] 1 = Some (mkS [2; 10; 1; 5] 4 100) /\
+  concat [mkS [2; 3; 1; 5] 4 30; mkS [2; 7; 1; 5] 1 70] 0 = None /\
+  permute_dims (mkS [2; 3; 1; 5] 4 30) [3; 0; 1; 2] = Some (mkS [5; 2; 3] 4 30) /\
+  permute_dims (mkS [2; 3; 1; 5] 4 30) [3; 0; 1; 1] = None /\
+  conv2d (mkS [7; 9; 3] 2 189) (mkS [3; 2; 3; 5] 1 90) 1 0 2 1 1 3 = Some (mkS [4; 6; 5] 2 120) /\
+  pool2d (mkS [7; 9; 3] 2 189) 3 2 1 0 2 3 = Some (mkS [4; 3; 3] 2 36) /\
+  matmul (mkS [2; 3] 1 6) (mkS [3; 4] 5 12) = Some (mkS [2; 4] 5 8) /\
+  broadcast (mkS [2; 1; 2] 1 4) 1 2147483648 = None /\
+  batch_concat [mkS [2] 2147483648 2; mkS [2] 2147483648 2; mkS [2] 5 2] = None /\
+  has_same_loo_dims (mkS [2; 3; 1; 5] 4 30) (mkS [2; 7; 1; 5] 1 70) 1 = true /\
+  has_same_loo_dims (mkS [2; 3] 1 6) (mkS [2; 3; 4] 1 24) 1 = false.
+Proof. vm_compute. repeat split; reflexivity. Qed.
